@@ -187,6 +187,10 @@ HARNESSES += [
         "reproc_stop with reproc_wait/terminate/kill inlined down to the OS layer; the three-iteration loop is "
         "fully unrolled (unwinding assertion on); every OS-level step is checked by the stop-sequence monitor "
         "against the plan computed by an independent specification", unwind=5),
+    api("destroy", ["C15", "C05", "C14", "C07", "C06"],
+        "reproc_destroy on a handle in any state, any stored stop policy, any deadline; reproc_stop and everything "
+        "below inlined; the monitor checks the stop steps and that nothing is released before the sequence is over; "
+        "the handle is freed (leak check)", unwind=5),
 ]
 
 ALL_FUNCTIONS = set()
